@@ -417,7 +417,11 @@ class Engine:
     def e_Name(self, node, st):
         n = node.id
         if n in st.env:
-            return st.env[n]
+            v = st.env[n]
+            if v.ty.kind == 'Optional' and isinstance(v.loc, FieldLoc):
+                # a local that aliases an Optional field (`x = self._f`): read with the field's CURRENT value
+                return V(v.ty, self.opt_term(v, st), v.loc, v.py)
+            return v
         if self.in_spec and n in self.spec_env:
             return self.spec_env[n]
         if self.in_spec and n in self.contract.get('defs', {}) and not self.contract['defs'][n][0]:
@@ -674,6 +678,12 @@ class Engine:
             return a
         if t.is_container:
             return V(t, z3.If(c, self.as_term(a, st), self.as_term(b, st)))
+        if t.kind == 'Optional':
+            # an Optional operand may alias a field (`x = self._f`): take its CURRENT value, not the term it had when
+            # the alias was made
+            ta = self.opt_term(a, st) if a.ty.kind == 'Optional' else a.t
+            tb = self.opt_term(b, st) if b.ty.kind == 'Optional' else b.t
+            return V(t, z3.If(c, ta, tb))
         return V(t, z3.If(c, a.t, b.t))
 
     def e_IfExp(self, node, st):
